@@ -40,13 +40,31 @@ Theorem C10_enum_string : forall names vals v,
 Proof. exact enum_string_correct. Qed.
 Print Assumptions C10_enum_string.
 
-(* a value inside the base type's range is stored unchanged in a cdata of the enum type *)
+(* the enum store: ffi.cast('enum e', x) writes the low `size` bytes of x mod 2^64 (little-endian) and reading
+   the cdata back as the signed/unsigned base type gives `wrap size signed x`, for EVERY integer x and every
+   base size 1..8: `wrap` is exactly what the byte-level store and load compute *)
+Theorem C10_cast_store_is_wrap : forall size signed x, (1 <= size <= 8)%nat ->
+  read_raw signed (cast_store size x) = wrap (Z.of_nat size) signed x.
+Proof. exact cast_read_is_wrap. Qed.
+Print Assumptions C10_cast_store_is_wrap.
+
+(* arithmetic fact about `wrap` alone (used below): inside the base type's range it is the identity *)
 Theorem C10_wrap_in_range : forall size (signed : bool) v, 1 <= size ->
   (signed = true -> - 2 ^ (8 * size - 1) <= v < 2 ^ (8 * size - 1)) ->
   (signed = false -> 0 <= v < 2 ^ (8 * size)) ->
   wrap size signed v = v.
 Proof. exact wrap_in_range. Qed.
 Print Assumptions C10_wrap_in_range.
+
+(* ffi.string(ffi.cast('enum e', x)), through the byte-level store: for x in the range of the base type it is the
+   first declared enumerator with value x, or the decimal text of x *)
+Theorem C10_string_of_cast : forall size signed names vals x, (1 <= size <= 8)%nat ->
+  (signed = true -> - 2 ^ (8 * Z.of_nat size - 1) <= x < 2 ^ (8 * Z.of_nat size - 1)) ->
+  (signed = false -> 0 <= x < 2 ^ (8 * Z.of_nat size)) ->
+  enum_cast_string size signed names vals x =
+  match first_name names vals x with Some nm => nm | None => decimal x end.
+Proof. exact string_of_cast. Qed.
+Print Assumptions C10_string_of_cast.
 
 (* the two encodings of (size, signedness) into a primitive index agree on the complete domain
    {1,2,4,8} x {0,1}: EnumExpr.as_python_expr (out-of-line ABI) and _cffi_prim_int (API mode) *)
@@ -76,5 +94,7 @@ Example C10_example_values_and_string :
   build_enum_values [None; None; Some 10; None; Some (-3); None; Some 10] = [0; 1; 10; 11; -3; -2; 10] /\
   map (enum_string [s2l "A"; s2l "B"; s2l "C"; s2l "D"] [5; 7; 5; 7]) [5; 7; 6; -1]
     = [s2l "A"; s2l "B"; s2l "6"; s2l "-1"] /\
-  wrap 4 false (-1) = 4294967295 /\ wrap 4 true 4294967295 = -1.
+  wrap 4 false (-1) = 4294967295 /\ wrap 4 true 4294967295 = -1 /\
+  cast_store 4 (-2) = [254; 255; 255; 255] /\ read_raw true [254; 255; 255; 255] = -2 /\
+  enum_cast_string 4 false [s2l "A"; s2l "B"] [5; 4294967294] (-2) = s2l "B".
 Proof. vm_compute. repeat split; reflexivity. Qed.
